@@ -153,6 +153,37 @@ func runC20(c *mon.Ctx) {
 				}
 			}
 		}
+		// the detected packet size belongs to the stream, not to the place where Rewind was called: 188+k framing (k = 1..4) whose
+		// first packet lets detection see the right size while every later packet ends in a 0x47, which would make a detection
+		// started there find another size
+		if i%4 == 2 {
+			k := 1 + int(i/4)%4
+			big := refts.Reframe(s.Bytes, k, func(p, j int) byte { return 0x11 })
+			ps := 188 + k
+			for j := 0; j*ps+ps <= len(big); j++ {
+				if j == 0 {
+					for q := ps - k; q < ps; q++ {
+						if big[q] == 0x47 {
+							big[q] = 0x48
+						}
+					}
+				} else {
+					big[j*ps+ps-1] = 0x47
+				}
+			}
+			sv := &gen.Stream{Units: s.Units, Packets: s.Packets, Owner: s.Owner, Bytes: big}
+			for _, api := range []string{"data", "packet"} {
+				cfg := DemuxCfg{PacketSize: 0, Reader: "seek", API: api}
+				fresh := RunDemux(big, cfg)
+				if fresh.Panic != "" {
+					continue
+				}
+				for kk := 0; kk <= fresh.Calls; kk++ {
+					rewindCase(c, "streams", i, sv, m, cfg, fresh, kk, -1)
+					c.Count("rewinds_with_detected_size_on_larger_framing")
+				}
+			}
+		}
 		// the configuration must survive a rewind too: an explicit packet size on inputs where auto-detection would decide otherwise
 		// (188+k framing whose extra bytes hold sync bytes; a single packet, which is too short to detect anything)
 		if i%3 == 0 {
